@@ -507,6 +507,35 @@ func uniqueNames(v pval) bool {
 	return true
 }
 
+// trailingEmptyOnly: an array (object) whose last item (value) is "" and whose other texts are core texts
+func trailingEmptyOnly(v pval) bool {
+	switch v.shape {
+	case "arr":
+		n := len(v.arr)
+		if n == 0 || v.arr[n-1] != "" {
+			return false
+		}
+		for _, a := range v.arr[:n-1] {
+			if !coreText(a) {
+				return false
+			}
+		}
+		return true
+	case "obj":
+		n := len(v.obj)
+		if n == 0 || v.obj[n-1][1] != "" || !uniqueNames(v) {
+			return false
+		}
+		for i, kv := range v.obj {
+			if !coreText(kv[0]) || (i < n-1 && !coreText(kv[1])) {
+				return false
+			}
+		}
+		return true
+	}
+	return false
+}
+
 // knownClass: the recorded wrong-value classes W1–W4 (known_findings.json K1)
 func knownClass(c pcfg, v pval, got pval) string {
 	if v.shape != "arr" {
@@ -750,6 +779,12 @@ func c06One(r *lp.Run, c pcfg, v pval, adm bool) {
 		} else {
 			fail("decoder delivers a different value than was encoded", res.got.text(), v.text()+" or an error")
 		}
+		return
+	}
+	// K41: a path array / object whose last item (value) is the empty string is written with a trailing delimiter
+	// and the decoder stops with EOF there: an error, not a wrong value, but the value is not recovered
+	if c.loc == "path" && res.out == "dec-err" && res.wire != "-" && trailingEmptyOnly(v) {
+		r.Known(lp.PropFail{Property: "C06", Class: "K41", What: "a path value that ends in an empty item is accepted by the encoder and refused by the decoder", Input: in, Observed: "decode error | " + res.wire, Expected: v.text()})
 		return
 	}
 	if coreVal(v) && c.name == "p" {
